@@ -661,7 +661,7 @@ theorem sepB_loop {s₁ s₂ : Side} {H : Hyps} {L : Lex} (hs : s₁.Ok H L) {b 
         have hw := onlyT_val hs hZ h2
         subst hw
         rw [h2] at hne
-        simp only [Sh.truthy, if_true, T_add] at hne ⊢
+        simp only [Sh.truthy, if_true] at hne ⊢
         obtain ⟨m2, hm2⟩ := trZ n (Nat.le_refl n) c q1 (by rw [h2]; simp)
         rw [h2] at hm2
         obtain ⟨m3, hm3⟩ := ih q2 hne
@@ -967,7 +967,7 @@ theorem finish_congr {na nb : Node} {r : Res} (hsup : na.suppress = nb.suppress)
       · exfalso
         subst hv
         have := hnet _ _ rfl
-        simp only [finish, hs] at this
+        simp only [hs] at this
         by_cases hr : na.root = true <;> simp [hr, NET] at this
       · simp [hv]
   | fail => rfl
